@@ -7,7 +7,12 @@ from typing import Self
 import numpy as np
 from pydantic import ConfigDict, ValidationInfo, model_validator
 
-from ropt.config.utils import ImmutableBaseModel, broadcast_arrays, immutable_array
+from ropt.config.utils import (
+    ImmutableBaseModel,
+    broadcast_1d_array,
+    broadcast_arrays,
+    immutable_array,
+)
 from ropt.config.validated_types import (  # noqa: TC001
     Array1D,
     Array1DInt,
@@ -77,6 +82,14 @@ class NonlinearConstraintsConfig(ImmutableBaseModel):
         self._mutable()
         self.lower_bounds = immutable_array(lower_bounds)
         self.upper_bounds = immutable_array(upper_bounds)
+        if self.realization_filters is not None:
+            self.realization_filters = broadcast_1d_array(
+                self.realization_filters, "realization_filters", lower_bounds.size
+            )
+        if self.function_estimators is not None:
+            self.function_estimators = broadcast_1d_array(
+                self.function_estimators, "function_estimators", lower_bounds.size
+            )
         self._immutable()
 
         return self
